@@ -592,46 +592,53 @@ def run(ctx, report: Report) -> None:
 
     # ---- R4: no partial operation ------------------------------------------------------------------------------
     r4 = report.rule('C10-R4', 'escape() contains no partial operation', floor=1)
-    allowed = {'len', 'enumerate', 'ord', 'join', 'append', 'match', 'fullmatch', 'startswith', 'endswith'} | STR_PREDICATES
-    todo, seen_f = [('escape', fn)], set()
-    while todo:
-        fname, f_ = todo.pop()
-        if fname in seen_f:
-            continue
-        seen_f.add(fname)
-        for c in [n for n in walk_no_nested(f_) if isinstance(n, ast.Call)]:
-            nm = call_name(c).split('.')[-1]
-            helper = mod.functions.get(call_name(c)) if '.' not in call_name(c) else None
-            ok = nm in allowed or helper is not None
-            r4.instance({'in': fname, 'call': unparse(c)[:60], 'total': ok}, key=f'{fname}|{unparse(c)}')
-            if helper is not None:
-                todo.append((call_name(c), helper))
-            elif not ok:
-                r4.violation(f'css_parser.{fname} call {nm}', mod.where(c),
-                             f'{fname}() calls {call_name(c)}(), which is not one of the total operations the never-raises '
-                             f'argument is written for ({sorted(allowed)})')
-    # the empty identifier: the only input on which `ident[0]` could fail
+    # (a) exception-flow analysis from escape(): every partial operation of the catalogue (int / chr / format / dict keys / next /
+    #     possibly-unbound locals / standard-library functions that raise on part of their domain) in the code reachable from it is
+    #     discharged where it stands
+    from ..callgraph import CallGraph
+    from ..excflow import ExcFlow
+    cg_ = ctx.get('callgraph', lambda: CallGraph(ctx.types, src))
+    ef_ = ExcFlow(ctx, cg_)
+    reach_ = cg_.reachable(['css_parser.escape'])
+    for q_ in sorted(reach_):
+        for e_ in ef_.events(q_):
+            if e_.kind == 'raise':
+                continue
+            r4.instance({'function': e_.func, 'operation': e_.text[:80], 'may_raise': e_.exc, 'discharged_by': e_.discharged}, key=f'{e_.func}|{e_.kind}|{e_.text[:60]}')
+    for key_, e_ in sorted(ef_.escapes('css_parser.escape').items()):
+        if e_.kind == 'raise':
+            r4.violation(f'css_parser.escape raises {e_.exc}', e_.where, f'escape() can raise {e_.exc} ({e_.text[:60]}, path {" -> ".join(e_.path)}): escaping never raises')
+        elif not (e_.discharged or '').startswith('UNDECIDED'):
+            r4.violation(f'{e_.func} {e_.kind} {e_.text[:50]}', e_.where,
+                         f'{e_.func}: `{e_.text}` can raise {e_.exc} and nothing between it and escape() handles that (path {" -> ".join(e_.path)})')
+    # (b) escape() by interpretation on the empty string and on hostile identifiers: no call raises (subscripts such as ident[0]
+    #     are outside the catalogue of (a); the empty identifier and one- and two-character identifiers are where they fail)
     from ..interp import Raised, call_function
     from ..miniev import Unsupported
+    from .e2ematch import HOSTILE
+    probes = ['', '-', '--', '-0', '0', '00', '-a', 'a', '\x00', '\x00\x00', '-\x00', '\x7f', '\x1f0', '9-', '_', '\U0010ffff', '\ud800'] + list(HOSTILE)
+    raised = None
+    for text_ in dict.fromkeys(probes):
+        try:
+            out_ = call_function(ctx, 'css_parser.escape', [text_], {}, {}, None, options={'regex_engine': True})
+            res_ = out_ if isinstance(out_, str) else f'returns {type(out_).__name__}'
+        except Raised as e:
+            res_ = f'raises {e.exc_name}'
+        except Unsupported as e:
+            raise AnalysisError(f'escape({text_!r}): outside the evaluable fragment: {e}')
+        r4.instance({'escape_of': text_, 'result': res_[:40]}, key=f'escape|{text_!r}', sample_cap=4)
+        if (res_.startswith('raises') or res_.startswith('returns ')) and raised is None:
+            raised = (text_, res_)
+    r4.obligation(raised is None)
+    if raised is not None:
+        r4.violation(f'css_parser.escape({raised[0]!r})', mod.where(fn), f'escape({raised[0]!r}) {raised[1]}: escaping never raises and returns text')
+    empty = None
     try:
-        empty = call_function(ctx, 'css_parser.escape', [''], {}, {}, None)
-    except Raised as e:
-        empty = f'raises {e.exc_name}'
-    except Unsupported as e:
-        empty = None
-        r4.note(f'escape("") could not be interpreted ({e}); the syntactic length-guard rule is used instead')
-        for sub in [n for n in walk_no_nested(fn) if isinstance(n, ast.Subscript)]:
-            guarded = tx.len_var is not None and unparse(sub) == f'{tx.param}[0]' and f'{tx.len_var} > 0 and' in unparse(
-                mod.parents[mod.parents[sub]]) if mod.parents.get(sub) in mod.parents else False
-            r4.instance({'subscript': unparse(sub), 'guarded_by_length_test': guarded}, key=unparse(sub))
-            if not guarded:
-                r4.violation(f'css_parser.escape subscript {unparse(sub)}', mod.where(sub),
-                             f'escape(): `{unparse(sub)}` is not guarded by a length test (IndexError on the empty string)')
-    r4.instance({'escape("")': empty}, key='empty')
-    r4.obligation(empty in ('', None))
+        empty = call_function(ctx, 'css_parser.escape', [''], {}, {}, None, options={'regex_engine': True})
+    except (Raised, Unsupported):
+        pass
     if empty not in ('', None):
-        r4.violation('css_parser.escape empty string', mod.where(fn),
-                     f'escape("") gives {empty!r} instead of "": a subscript or comparison is not guarded by a length test')
+        r4.violation('css_parser.escape empty string', mod.where(fn), f'escape("") gives {empty!r} instead of ""')
 
     # ---- R5: pattern text reaches the tokenizer unmodified -----------------------------------------------------
     r5 = report.rule('C10-R5', 'pattern text travels from compile() to the tokenizer unmodified', floor=1)
